@@ -42,3 +42,24 @@ Proof.
   { induction (staged_rows x) as [|r rows IH]; [reflexivity|]. cbn [flat_map instr_steps app]. now rewrite IH. }
   rewrite E2. reflexivity.
 Qed.
+
+(* ---------------------------------------------------------------------------------------------
+   cond archive: Model/ArchiveOut.v is cli/archive.py of the working tree -- handle_output_path takes the decision
+   TRANSLATED from the sources on every answer of the file system, and main enters its steps in the translated order
+   (before the try block, inside it, in the bare `except:`, in `finally:`); create_archive has the one shape in which
+   `tar czf <output file>` is the only statement that touches the output file. *)
+From Conductor Require Import Model.ArchiveOut.
+
+Lemma archive_output_tie : forall p,
+  decision_code (handle_output_path p) =
+  gen_archive_output_decision (o_given p) (o_exists p) (o_is_dir p) (o_parent_exists p) (o_parent_is_dir p).
+Proof.
+  intros [g e d pe pd]. unfold handle_output_path, gen_archive_output_decision. cbn [o_given o_exists o_is_dir o_parent_exists o_parent_is_dir].
+  destruct g, e, d, pe, pd; reflexivity.
+Qed.
+
+Lemma archive_steps_tie :
+  steps_before_try = gen_archive_before_try /\ steps_try = gen_archive_try /\
+  steps_on_error = gen_archive_on_error /\ steps_finally = gen_archive_finally /\
+  gen_archive_tar_is_the_only_writer = true.
+Proof. repeat split; reflexivity. Qed.
